@@ -154,6 +154,7 @@ func (f *FnEnc) doAlloc(x *ssa.Alloc) {
 		}
 		f.zeroStruct(el, r)
 		f.addrs[x] = &Addr{Kind: akObj, Ref: r, Typ: el}
+		f.cellName2[x] = x.Comment
 		f.allocHook(el, r)
 	case *types.Array:
 		if isByte(u.Elem()) {
